@@ -152,9 +152,10 @@ pub fn gen_c18(seed: u64, tier: Tier) -> Scenario {
         schedule.push((0u8, slot, mig));
     }
     let mut ctor_faults = Vec::new();
-    if rng.chance(0.3) {
-        for _ in 0..rng.usize_in(1, 3) {
-            ctor_faults.push((rng.usize_in(0, total.max(1)) as u32, rng.below(threads as u64) as u8, rng.below(4) as u8));
+    if rng.chance(0.4) {
+        for _ in 0..rng.usize_in(1, 4) {
+            let kind = if rng.chance(0.5) { rng.below(4) as u8 } else { 4 + rng.below(200) as u8 };
+            ctor_faults.push((rng.usize_in(0, total.max(1)) as u32, rng.below(threads as u64) as u8, kind));
         }
     }
     let first = instances[0].clone();
@@ -230,6 +231,16 @@ fn worker_loop(rx: Receiver<Cmd>, tx: Sender<Reply>) {
             }
             Cmd::FailCtor(kind) => {
                 // a constructor call that fails (documented Err, or capacity-overflow panic for absurd sizes)
+                if kind >= 4 {
+                    // a foreign call on this thread whose user buffer accessor unwinds
+                    if kind % 2 == 0 {
+                        crate::exec::foreign_unwind::<f32>(kind as u32);
+                    } else {
+                        crate::exec::foreign_unwind::<f64>(kind as u32);
+                    }
+                    let _ = tx.send(Reply::Done);
+                    continue;
+                }
                 let r = std::panic::catch_unwind(|| match kind {
                     0 => rubato::FftFixedIn::<f64>::new((1usize << 61) + 1, 1, 1024, 1, 1).is_ok(),
                     1 => rubato::FastFixedIn::<f32>::new(-1.0, 1.0, rubato::PolynomialDegree::Cubic, 64, 1).is_ok(),
@@ -315,6 +326,7 @@ pub fn eval_c18(sc: &Scenario) -> Outcome {
     }
     let mut late = 0u64;
     let mut faults_fired = 0u64;
+    let mut unwinds_fired = 0u64;
     let mut migrations = 0u64;
     let mut steps = 0u64;
     let mut thread_switches = 0u64;
@@ -331,7 +343,11 @@ pub fn eval_c18(sc: &Scenario) -> Outcome {
                 let t = *th as usize % k;
                 let _ = txs[t].send(Cmd::FailCtor(*kind));
                 let _ = rxs[t].recv();
-                faults_fired += 1;
+                if *kind >= 4 {
+                    unwinds_fired += 1;
+                } else {
+                    faults_fired += 1;
+                }
             }
         }
         let remaining: Vec<usize> = (0..instances.len()).filter(|i| constructed[*i] && alive[*i] && next_op[*i] < instances[*i].ops.len()).collect();
@@ -377,6 +393,7 @@ pub fn eval_c18(sc: &Scenario) -> Outcome {
     }
     out.cov.fault("F10_late_constructions", late);
     out.cov.fault("F3_failing_constructor_calls", faults_fired);
+    out.cov.fault("F8_foreign_call_unwinding_in_user_buffer", unwinds_fired);
     // collect traces
     let mut traces: Vec<Option<Trace>> = (0..instances.len()).map(|_| None).collect();
     for id in 0..instances.len() {
